@@ -42,6 +42,10 @@ pub fn run(id: &'static str, tier: Tier, seed: u64) -> Option<Evidence> {
             let c = FmtCampaign::new("fmt-line", Focus::Line);
             driver::run_random(&c, &ev, &ctx, scale(tier.pick(200_000, 2_000_000)), sh);
             c.report(&ev);
+            if ev.violations().is_empty() {
+                // the macro call form (one child process per case), judged by the same reference renderer
+                driver::run_random(&crate::macros_child::MacroCampaign, &ev, &ctx, scale(tier.pick(300, 5_000)), sh);
+            }
             fuzz_tier(id, Target::Fmt, &ev, &ctx, tier);
             Some(ev)
         }
@@ -86,6 +90,9 @@ pub fn run(id: &'static str, tier: Tier, seed: u64) -> Option<Evidence> {
             let c = FmtCampaign::new("fmt-decor", Focus::Decor);
             driver::run_random(&c, &ev, &ctx, scale(tier.pick(200_000, 2_000_000)), sh);
             c.report(&ev);
+            if ev.violations().is_empty() {
+                driver::run_random(&crate::macros_child::MacroCampaign, &ev, &ctx, scale(tier.pick(300, 5_000)), sh);
+            }
             Some(ev)
         }
         "C05" | "C06" | "C07" | "C19" => Some(run_writer(id, tier, seed, &ctx, sh)),
@@ -172,8 +179,9 @@ fn run_sched(id: &'static str, tier: Tier, seed: u64, ctx: &Ctx, sh: u32) -> Evi
         "programs_cut_by_budget": ex.incomplete.load(std::sync::atomic::Ordering::Relaxed),
     }));
     ev.set_exhaustive(false);
-    if ok {
-        driver::run_random(&SchedCampaign, &ev, ctx, scale(tier.pick(60_000, 1_500_000)), sh);
+    if ok && driver::run_random(&SchedCampaign, &ev, ctx, scale(tier.pick(60_000, 1_500_000)), sh) {
+        // the process-global wrappers: racing setters in a fresh process each (OS-scheduled, sampled)
+        driver::run_random(&crate::macros_child::GlobalRace, &ev, ctx, scale(tier.pick(400, 10_000)), sh);
     }
     ev
 }
@@ -614,6 +622,7 @@ pub fn replay(id: &'static str, campaign: &str, case: &serde_json::Value, tier: 
     }
     try_camp!(ConcSockCampaign);
     try_camp!(crate::macros_child::MacroCampaign);
+    try_camp!(crate::macros_child::GlobalRace);
     for pid in ["C01", "C02", "C05", "C07", "C19", "C20"] {
         for t in [Target::Fmt, Target::Mlw, Target::Api] {
             if let Some(c) = bytes_campaign(pid, t) {
